@@ -52,11 +52,18 @@ def run(tier, seed):
         runs.append(("Err", "Err_b9", "Budget=9 MaxDepth=4 (VIEW without history)", False))
     core.run_models(ev, runs)
     # spec -> code: every complete program of the model within the budget
-    gcfg = "gen/ErrGen_b7.cfg" if quick else "gen/ErrGen_b8.cfg"
+    gcfg = "gen/ErrGen_b7.cfg"
     g = core.tlc("gen/ErrGen.tla", gcfg, workers=core.NCPU, timeout=2400, heap="16g")
     if not g.ok:
         raise core.InfraError("ErrGen failed:\n" + g.out[-2000:])
-    progs = sorted(set(json.loads(json.loads(x)) and x for x in g.prints))
+    prints = list(g.prints)
+    if not quick:
+        # deeper programs than the exhaustive budget: TLC random simulation of the same machine
+        sm = core.tlc("gen/ErrGen.tla", "gen/ErrGen_b12.cfg", workers=8, timeout=1500, simulate=40000, depth=80,
+                      seed=seed)
+        prints += sm.prints
+        ev.cov["simulated_programs"] = len(set(sm.prints))
+    progs = sorted(set(json.loads(json.loads(x)) and x for x in prints))
     cases = [" ".join(tok_text(t) for t in json.loads(json.loads(x))) for x in progs]
     ev.cov["generated_programs"] = len(cases)
     ev.add_mc("ErrGen", g, "complete programs printed by the generator run")
